@@ -147,8 +147,18 @@ class Ctx:
             os.utime(self.bdir, None)
             dirs = [os.path.join(root, d) for d in os.listdir(root)]
             dirs = [d for d in dirs if os.path.isdir(d)]
+            # the build of the committed tree (no uncommitted change in /repo) is kept across runs against patched trees
+            clean = subprocess.run(['git', '-C', REPO, 'status', '--porcelain', '--untracked-files=no'], stdout=subprocess.PIPE,
+                                   stderr=subprocess.DEVNULL, text=True)
+            if clean.returncode == 0 and not clean.stdout.strip():
+                for d in dirs:
+                    k = os.path.join(d, '.committed-tree')
+                    if d == self.bdir:
+                        open(k, 'w').close()
+                    elif os.path.exists(k):
+                        os.remove(k)
             dirs.sort(key=lambda d: os.path.getmtime(d), reverse=True)
-            for d in dirs[4:]:
+            for d in [x for x in dirs if not os.path.exists(os.path.join(x, '.committed-tree'))][4:]:
                 shutil.rmtree(d, ignore_errors=True)
         except OSError:
             pass
